@@ -1594,6 +1594,181 @@ class Body:
                 dq.append(ns)
         return True, None
 
+    # -- small constant propagation along paths (values carried through tuples / Option / struct aggregates) ----------------------
+    @staticmethod
+    def _fpath(projs):
+        out = []
+        for x in projs:
+            if x == "*":
+                continue
+            if isinstance(x, list) and x[0] == "f":
+                out.append(x[1])
+            elif isinstance(x, list) and x[0] == "d":
+                continue
+            else:
+                return None
+        return tuple(out)
+
+    def _cp_transfer(self, b, env):
+        d = dict(env)
+
+        def kill(loc):
+            for k in [k for k in d if k[0] == loc]:
+                d.pop(k, None)
+
+        def const_of(op):
+            if op[0] == "k":
+                v = op[1].get("b") if "b" in op[1] else op[1].get("v")
+                if isinstance(v, (bool, int)):
+                    return v
+                if isinstance(v, str) and v.lstrip("-").isdigit():
+                    return int(v)
+            return None
+        for s in self.stmts(b):
+            if s[0] != "A":
+                continue
+            loc, pr = s[1]
+            rv = s[2]
+            if pr:
+                fp = self._fpath(pr)
+                if fp is None:
+                    kill(loc)
+                else:
+                    for k in [k for k in d if k[0] == loc and k[1] != "variant" and k[1][:len(fp)] == fp]:
+                        d.pop(k, None)
+                    if rv[0] == "use":
+                        c = const_of(rv[1])
+                        if c is not None:
+                            d[(loc, fp)] = c
+                continue
+            kill(loc)
+            if rv[0] == "use":
+                c = const_of(rv[1])
+                if c is not None:
+                    d[(loc, ())] = c
+                elif rv[1][0] in ("c", "m"):
+                    src, spr = rv[1][1]
+                    fp = self._fpath(spr)
+                    if fp is not None:
+                        for (l2, p2), v2 in list(d.items()):
+                            if l2 == src and p2 != "variant" and p2[:len(fp)] == fp:
+                                d[(loc, p2[len(fp):])] = v2
+                        if not fp and (src, "variant") in d:
+                            d[(loc, "variant")] = d[(src, "variant")]
+            elif rv[0] == "agg":
+                meta = rv[1]
+                if "vidx" in meta:
+                    d[(loc, "variant")] = meta["vidx"]
+                for k_, o in enumerate(rv[2]):
+                    c = const_of(o)
+                    if c is not None:
+                        d[(loc, (k_,))] = c
+                    elif o[0] in ("c", "m") and not o[1][1]:
+                        for (l2, p2), v2 in list(d.items()):
+                            if l2 == o[1][0] and p2 != "variant":
+                                d[(loc, (k_,) + p2)] = v2
+            elif rv[0] == "disc":
+                src, spr = rv[1]
+                if not [x for x in spr if x != "*"] and (src, "variant") in d:
+                    d[(loc, ())] = d[(src, "variant")]
+            elif rv[0] == "un" and rv[1] == "Not":
+                o = rv[2]
+                if o[0] in ("c", "m") and not o[1][1] and (o[1][0], ()) in d and isinstance(d[(o[1][0], ())], bool):
+                    d[(loc, ())] = not d[(o[1][0], ())]
+            elif rv[0] == "ref" and rv[1]:
+                kill(rv[2][0])
+        t = self.term(b)
+        if t["k"] == "call" and t.get("dest") is not None:
+            dl = t["dest"][0]
+            kill(dl)
+            # what the `?` machinery does to a value whose variant is known (library facts about core::ops::Try for Result and Option)
+            nm = (t.get("callee") or {}).get("name")
+            ty = self.locals[dl] if dl < len(self.locals) and not t["dest"][1] else ""
+            if nm == "from_residual" and not t["dest"][1]:
+                if ty.startswith("core::result::Result<"):
+                    d[(dl, "variant")] = 1
+                elif ty.startswith("core::option::Option<"):
+                    d[(dl, "variant")] = 0
+            elif nm == "branch" and not t["dest"][1] and t.get("args"):
+                a = t["args"][0]
+                if a[0] in ("c", "m") and not a[1][1] and (a[1][0], "variant") in d:
+                    av = d[(a[1][0], "variant")]
+                    aty = self.locals[a[1][0]] if a[1][0] < len(self.locals) else ""
+                    if aty.startswith("core::result::Result<"):
+                        d[(dl, "variant")] = 0 if av == 0 else 1
+                    elif aty.startswith("core::option::Option<"):
+                        d[(dl, "variant")] = 0 if av == 1 else 1
+        return d
+
+    def reachable_cp(self, start_blocks, cap=40000):
+        """Blocks reachable from start_blocks when constants and known variants (through aggregates, moves, `?`) decide the matches they reach."""
+        seen, blocks = set(), set()
+        dq = deque((s_, ()) for s_ in start_blocks)
+        while dq and cap > 0:
+            cap -= 1
+            b, env = dq.popleft()
+            if (b, env) in seen:
+                continue
+            seen.add((b, env))
+            blocks.add(b)
+            d = self._cp_transfer(b, env)
+            t = self.term(b)
+            succs = self.succ[b]
+            if t["k"] == "switch":
+                p_ = op_place(t["discr"])
+                if p_ is not None and not p_[1] and (p_[0], ()) in d:
+                    val = d[(p_[0], ())]
+                    val = int(val) if isinstance(val, bool) else val
+                    hit = [tb for v_, tb in t["arms"] if (int(v_) if isinstance(v_, str) else v_) == val]
+                    succs = hit[:1] if hit else [t["otherwise"]]
+            env2 = tuple(sorted(d.items(), key=repr))
+            for s_ in succs:
+                if not self.is_cleanup(s_):
+                    dq.append((s_, env2))
+        if cap <= 0:
+            return self.reachable_from(list(start_blocks))
+        return blocks
+
+    def const_values(self, start_blocks, target_block, operand, cap=40000):
+        """The set of constant values `operand` can have on arrival at the terminator of `target_block`, over the paths from start_blocks (values
+        are followed through tuples, Option / struct aggregates, moves and matches on them). None in the set = a path on which it is not a known constant."""
+        out = set()
+        seen = set()
+        dq = deque()
+        for s_ in start_blocks:
+            dq.append((s_, ()))
+        while dq and cap > 0:
+            cap -= 1
+            b, env = dq.popleft()
+            if (b, env) in seen:
+                continue
+            seen.add((b, env))
+            d = self._cp_transfer(b, env)
+            if b == target_block:
+                if operand[0] == "k":
+                    v = operand[1].get("b") if "b" in operand[1] else operand[1].get("v")
+                    out.add(v)
+                else:
+                    fp = self._fpath(operand[1][1])
+                    out.add(d.get((operand[1][0], fp)) if fp is not None else None)
+                continue
+            t = self.term(b)
+            succs = self.succ[b]
+            if t["k"] == "switch":
+                p_ = op_place(t["discr"])
+                if p_ is not None and not p_[1] and (p_[0], ()) in d:
+                    val = d[(p_[0], ())]
+                    val = int(val) if isinstance(val, bool) else val
+                    hit = [tb for v_, tb in t["arms"] if (int(v_) if isinstance(v_, str) else v_) == val]
+                    succs = hit[:1] if hit else [t["otherwise"]]
+            env2 = tuple(sorted(d.items(), key=repr))
+            for s_ in succs:
+                if not self.is_cleanup(s_):
+                    dq.append((s_, env2))
+        if cap <= 0:
+            out.add(None)
+        return out
+
     def _must_pass_flags_only(self, start_blocks, through, discharge, targets):
         parent = {}
         dq = deque()
